@@ -28,6 +28,11 @@ FAULTS = {
     "rettype": dict(stmt="fR%(i)d(xr%(i)d: SingleInteger): String == @xr%(i)d;", marker="`xr%(i)d'", phase="sem"),
     "macro":   dict(stmt="macro mac%(i)d == @undefMac%(i)d;", marker="`undefMac%(i)d'", phase="sem",
                     use="fM%(i)d(x: SingleInteger): SingleInteger == x + mac%(i)d;"),
+    # short statements, so that several fit on one line below the width at which the report splits the heading
+    "bare":    dict(stmt="@bareName%(i)d;", marker="`bareName%(i)d'", phase="sem"),
+    # a scanner WARNING (no marker: every such message has the same text): generated before every message of
+    # the semantic phases, so the order of generation differs from the order of positions
+    "funny":   dict(stmt="wq%(i)d@_a: SingleInteger := %(i)d;", marker=None, phase="sem"),
     "syntax":  dict(stmt="fY%(i)d(x: SingleInteger): SingleInteger == x + @;", marker=None, phase="syn"),
     "error":   dict(stmt="@#error planted%(i)d", marker=" planted%(i)d", phase="scan", directive="unknown"),
     "endif":   dict(stmt="@#endif", marker="`#endif'", phase="incl", directive="endif"),
@@ -191,11 +196,14 @@ def render_case(case, d):
                 names.add(it["f"])
         with open(os.path.join(d, name), "w") as fh:
             fh.write("\n".join(out) + ("\n" if out else ""))
-    for n in names - set(case["files"]):
+    standins = case.get("standins", {})
+    for n in (names | set(standins)) - set(case["files"]):
         if os.path.dirname(n):
             os.makedirs(os.path.join(d, os.path.dirname(n)), exist_ok=True)
         with open(os.path.join(d, n), "w") as fh:
             fh.write("-- stand-in for a name used by #line\n")
+            for j in range(2, standins.get(n, 1) + 1):
+                fh.write("-- stand-in line %d of %s\n" % (j, n))
 
 
 def abstract_case(case):
@@ -330,7 +338,56 @@ def layout_eofif(faults, k=0, where=1, style="blank", eofid=9):
     return {"files": files, "top": TOP, "eofid": eofid, "pseudo": [EofIf(eofid)]}
 
 
-LAYOUTS = {"same": layout_same, "inc": layout_inc, "line": layout_line, "if": layout_if,
+def plant_line(fts):
+    """one physical line carrying several planted statements (columns increasing)"""
+    out = ""
+    for ft in fts:
+        t = ft.stmt
+        need = ft.col - 1 - ft.off
+        if need < len(out) + (1 if out else 0):
+            raise ValueError("column %d cannot be reached on a line that already holds %r" % (ft.col, out))
+        if ft.pad == "tab" and not out:
+            out = "\t" * (need // TABSTOP) + " " * (need % TABSTOP) + t
+        else:
+            out = out + " " * (need - len(out)) + t
+    return out
+
+
+def layout_gen(faults, hist=(), plan=None, top="ra.as", standins=None, tail=0, k=0, where=1, style="blank"):
+    """A layout enumerated by TLC (spec/ReportGen.tla): hist = the items the includer read, each with the
+    file it was read from; plan = {serial line number: [indices into faults]} says which remembered
+    lines carry planted statements (the other lines are ordinary code).  The top file starts with the
+    prelude the generator's initial state assumes; `tail' lines of ordinary code are appended to every file
+    (they move no line of the layout; with them more of the renumbered lines exist on disk)."""
+    plan = {int(a): b for a, b in (plan or {}).items()}
+    files = {top: prelude()}
+    g = sum(it["n"] if it["k"] == "lines" else 1 for it in files[top])
+    for h in hist:
+        items = files.setdefault(h["file"], [])
+        if h["k"] == "lines":
+            toks, texts = [], {}
+            for j in range(1, h["n"] + 1):
+                fts = [faults[x] for x in plan.get(g + j, [])]
+                if fts:
+                    texts[j] = plant_line(fts)
+                    toks += [{"j": j, "c": ft.col, "id": ft.i} for ft in fts]
+            items.append(_item("lines", n=h["n"], toks=toks, texts=texts, fill="code"))
+            g += h["n"]
+        elif h["k"] == "include":
+            items.append(include(h["f"]))
+            g += 1
+        elif h["k"] == "line":
+            items.append(linedir(h["n"], h["f"]))
+            g += 1
+        elif h["k"] == "eof":
+            if tail:
+                items.append(lines(tail, "code"))
+        else:
+            raise ValueError("item kind %r is not rendered" % h["k"])
+    return {"files": files, "top": top, "standins": dict(standins or {})}
+
+
+LAYOUTS = {"gen": layout_gen, "same": layout_same, "inc": layout_inc, "line": layout_line, "if": layout_if,
            "incline": layout_inc_line, "ifinc": layout_ifinc, "collide": layout_collide, "eofif": layout_eofif}
 
 
@@ -377,12 +434,117 @@ def parse_nosource_mode(text):
     return out
 
 
+RE_HEAD = re.compile(r'^"([^"]*)", line (\d+): ?(.*)$')
+RE_DOTS = re.compile(r'^( *)([.^]*\^)$')
+
+
+def parse_report(text):
+    """The report of a style that shows the source, as printed: a list of groups
+    {pre, head, file, line, echo (text or None), estart, indent, carets, leads: [(ln, col, serial, sev, text)]}.
+    A group starts after an empty line (or at the start, or after a preview marker) with a heading, a caret
+    line or a lead; every other line continues the text of the last lead."""
+    lines = text.split("\n")
+    groups, cur, boundary, pre_next, i = [], None, True, False, 0
+
+    def new(**kw):
+        g = dict(pre=pre_next, head=False, file="", line=-1, echo=None, estart=0, indent=0, carets=[], leads=[])
+        g.update(kw)
+        groups.append(g)
+        return g
+    while i < len(lines):
+        ln = lines[i]
+        if ln.strip() in ("(Message Preview)", "[Message Preview]"):
+            pre_next, boundary, cur = True, True, None
+            i += 1
+            continue
+        if ln == "":
+            boundary, cur = True, None
+            i += 1
+            continue
+        if boundary:
+            m = RE_HEAD.match(ln)
+            d = RE_DOTS.match(ln)
+            if m:
+                cur = new(head=True, file=m.group(1), line=int(m.group(2)))
+                pre_next = False
+                if m.group(3) == "":            # heading on a line of its own: the source text follows, if any
+                    nxt = lines[i + 1] if i + 1 < len(lines) else ""
+                    if RE_DOTS.match(nxt):
+                        cur["echo"], cur["estart"] = "", len(ln)     # an empty text (or none) on the heading's line
+                    else:
+                        cur["echo"], cur["estart"] = nxt, 0
+                        i += 1
+                else:
+                    cur["echo"], cur["estart"] = m.group(3), m.start(3)
+                i += 1
+                d = RE_DOTS.match(lines[i]) if i < len(lines) else None
+                if d:
+                    cur["indent"] = len(d.group(1))
+                    cur["carets"] = [x + 1 for x, ch in enumerate(d.group(2)) if ch == "^"]
+                    i += 1
+                boundary = False
+                continue
+            if d:
+                cur = new(indent=len(d.group(1)), carets=[x + 1 for x, ch in enumerate(d.group(2)) if ch == "^"])
+                pre_next, boundary = False, False
+                i += 1
+                continue
+        m = RE_LC.match(ln)
+        n = RE_NOPOS.match(ln) if not m else None
+        if m or n:
+            if cur is None:
+                cur = new()
+                pre_next = False
+            if m:
+                cur["leads"].append([int(m.group(1)), int(m.group(2)), int(m.group(3)), m.group(4), m.group(5)])
+            else:
+                cur["leads"].append([-1, -1, int(n.group(1)), n.group(2), n.group(3)])
+        elif cur is not None and cur["leads"]:
+            cur["leads"][-1][4] += "\n" + ln
+        boundary = False
+        i += 1
+    return [g for g in groups if g["leads"] or g["head"] or g["carets"]]
+
+
+def headings(text):
+    """(file, line) of every heading in a report (what the binding has to look up on disk)"""
+    out = set()
+    for ln in text.split("\n"):
+        m = RE_HEAD.match(ln)
+        if m:
+            out.add((m.group(1), int(m.group(2))))
+    return out
+
+
+def untab(s):
+    return s.expandtabs(TABSTOP)
+
+
+def report_obs(text, serial_mk, srcs, intern):
+    """Project a printed report for TLC.  serial_mk: message serial -> tag (from observations());
+    srcs: (file, line) -> text of that line on disk or None; intern: text -> index >= 1."""
+    pre, fin = [], []
+    for g in parse_report(text):
+        src = srcs.get((g["file"], g["line"])) if g["head"] else None
+        # echo / src: index of the text shown / of the text that line has on disk; 0 = nothing visible (no such
+        # line, or an empty one: a heading followed by an empty text and a heading alone look the same)
+        o = {"head": g["head"], "file": g["file"], "line": g["line"],
+             "echo": intern(g["echo"]) if g["echo"] else 0,
+             "src": intern(untab(src)) if src else 0,
+             "align": (not g["head"]) or g["indent"] == g["estart"],
+             "carets": g["carets"],
+             "leads": [{"mk": serial_mk.get(ld[2], 0), "ln": ld[0], "col": ld[1]} for ld in g["leads"]]}
+        (pre if g["pre"] else fin).append(o)
+    return pre, fin
+
+
 def observations(src_out, nosrc_out, faults, intern):
     """Join the two runs on the message serial number and project each message:
     mk = tag of the planted fault whose marker occurs in the text (a message without any marker is
     attributed to the family's unmarked fault, if it has exactly one), tx = interned severity+text."""
     a, b = parse_source_mode(src_out), parse_nosource_mode(nosrc_out)
     unmarked = [f.i for f in faults if f.marker is None]
+    nomark = []
     obs = []
     for serial in sorted(set(a) | set(b)):
         ln, col, sev1, t1 = a.get(serial, (-2, -2, "?", "<absent from default-format run>"))
@@ -396,5 +558,10 @@ def observations(src_out, nosrc_out, faults, intern):
         else:
             if len(unmarked) == 1:
                 mk = unmarked[0]
+            elif len(unmarked) > 1:
+                # several planted statements whose messages carry no marker (the scanner's warnings): they are
+                # generated in the order in which the lines are read, which is the order of `faults'
+                mk = unmarked[len(nomark)] if len(nomark) < len(unmarked) else 0
+                nomark.append(serial)
         obs.append({"mk": mk, "file": fn, "line": line, "ln": ln, "col": col, "tx": intern(text), "serial": serial, "text": text})
     return obs
